@@ -242,6 +242,32 @@ def main():
         cmds.append(r.verus_cmd if hasattr(r, 'verus_cmd') else r.cmd)
         bounded += getattr(r, 'bounded', [])
         smt_ms += getattr(r, 'smt_ms', 0)
+        # SECOND OPINION.  An obligation that verified on the unchanged tree and fails now is, by itself, only "the proof no
+        # longer goes through": bit-vector and nonlinear steps are syntactic (`fcs ^ byte` rewritten as `byte ^ fcs` loses a
+        # `by (bit_vector)` hint), a field read hoisted into a local changes what a loop knows.  Measured with behaviour-
+        # preserving edits written by sub-agents: 3 of 12 were reported as violations through such obligations, labelled
+        # postconditions among them.  So where the unit has a bounded stand-in, a verifier failure is reported as a
+        # VIOLATION only together with a divergence the stand-in finds on the REAL code (the replay then carries the
+        # concrete input); without one the property is UNDECIDED (exit 2), and the failed obligations are named.  Units
+        # without a stand-in (spec-level theorems, kernels) and Kani harnesses (which come with their own counterexample)
+        # report as before.  Known findings are matched before this step.
+        new_fails = [f for f in fails if not finding_for(kf, prop, f)]
+        if new_fails and not uname.startswith('kani:') and uname in bx.UNIT_HARNESS and not any(f.get('counterexample') for f in new_fails):
+            br = bx.run([uname], REPO, seed=seed)
+            bounded.append({'unit': uname, 'bounded': True, 'why': 'second opinion on %d failed obligation(s) of the verifier' % len(new_fails),
+                            'harness': bx.UNIT_HARNESS[uname][0], 'stats': br.stats, 'status': br.status, 'cmd': br.cmd})
+            cmds.append(br.cmd)
+            div = [b for b in br.fails if prop in finder.props_of(b)] or list(br.fails)
+            if div:
+                cex = {'kind': 'bounded-harness', 'harness': bx.UNIT_HARNESS[uname][0], 'failure': div[0], 'cmd': br.cmd}
+                for f in new_fails:
+                    f['counterexample'] = cex
+            else:
+                undecided.append('%s: %d obligation(s) fail in the verifier (%s) but the bounded stand-in %s finds no divergence on the real code%s: '
+                                 'not reported as a violation' % (uname, len(new_fails),
+                                 '; '.join(sorted({'%s::%s' % (f['fn'], f['label']) for f in new_fails}))[:400], bx.UNIT_HARNESS[uname][0],
+                                 '' if br.status == 'ok' else ' (%s %s)' % (br.status, br.reason[:80])))
+                fails = [f for f in fails if f not in new_fails]
         seen_ob = set()
         for f in fails:
             if (f['fn'], f['label']) in seen_ob:
